@@ -28,8 +28,22 @@ def extension_pairs():
             out.append((weaker.upper(), name))
     return out
 
+# logics that define rules of their own which few or no other logics inherit get extra weight
+HEAVY = ('D', 'T', 'S4', 'S5', 'K', 'CFOL', 'CPL', 'FDE', 'K3', 'LP', 'KFDE', 'S4GO', 'K3WQ', 'KK3WQ', 'MH', 'NH', 'GO', 'RM3', 'L3', 'G3', 'P3', 'K3W', 'B3E')
+_WEIGHTED = None
+def weighted_logics():
+    global _WEIGHTED
+    if _WEIGHTED is None:
+        w = list(LOGICS)
+        for name in HEAVY:
+            if name in LOGICS:
+                w.extend([name] * (3 if name in ('D', 'T', 'S4', 'S5', 'K', 'CFOL') else 1))
+        # deterministic interleaving so that a short prefix of the cycle already covers every logic
+        _WEIGHTED = sorted(w, key=lambda n: (w.index(n) * 7919) % 1009) if False else w
+    return _WEIGHTED
+
 def pick_logic(rng, index, salts=1, logics=None):
-    logics = logics or LOGICS
+    logics = logics or weighted_logics()
     # stratified: every logic gets a floor share, independent of the salt cycle
     return logics[(index // salts) % len(logics)]
 
@@ -74,9 +88,62 @@ def mutate(rng, prems, conc, prof):
         conc = ('O', op, (conc, lexgen.gen_sentence(rng, prof, depth=1)))
     return prems, conc
 
+def modal_template(rng, natoms=2):
+    "Arguments whose proofs create several worlds with interacting box-type nodes."
+    def lit():
+        a = ('A', rng.randrange(natoms), 0)
+        return a if rng.random() < 0.6 else ('O', 'Negation', (a,))
+    def chain():
+        s = lit()
+        if rng.random() < 0.25:
+            s = ('O', rng.choice(('Conjunction', 'Disjunction', 'MaterialConditional')), (s, lit()))
+        for _ in range(rng.choice((1, 2, 2, 3))):
+            s = ('O', rng.choice(('Possibility', 'Necessity')), (s,))
+        if rng.random() < 0.2:
+            s = ('O', 'Negation', (s,))
+        return s
+    prems = [chain() for _ in range(rng.choice((1, 2, 2, 3)))]
+    conc = chain() if rng.random() < 0.6 else lit()
+    return prems, conc
+
+def fo_template(rng, identity=False):
+    "Quantified premises that mention constants of their own, constants arriving in mixed orders."
+    consts = [('c', i, 0) for i in rng.sample(range(4), rng.choice((1, 2, 3)))]
+    preds = [(0, 0, 1), (1, 0, 2)]
+    x, y = ('v', 0, 0), ('v', 1, 0)
+    def atom(vars_):
+        pk = rng.choice(preds)
+        def term():
+            return rng.choice(vars_) if vars_ and rng.random() < 0.65 else rng.choice(consts)
+        if identity and rng.random() < 0.25:
+            return ('P', refsem.IDENTITY, (term(), term()))
+        return ('P', pk, tuple(term() for _ in range(pk[2])))
+    def ground():
+        s = atom(())
+        return s if rng.random() < 0.7 else ('O', 'Negation', (s,))
+    def quantified():
+        for _ in range(8):
+            body = atom((x,))
+            if rng.random() < 0.4:
+                body = ('O', rng.choice(('MaterialConditional', 'Conjunction', 'Disjunction', 'Conditional')), (body, atom((x,))))
+            if rng.random() < 0.25:
+                body = ('O', 'Negation', (body,))
+            if x in refsem._free_vars(body):
+                s = ('Q', rng.choice(('Universal', 'Universal', 'Existential')), (0, 0), body)
+                return s if rng.random() < 0.8 else ('O', 'Negation', (s,))
+        return ('Q', 'Universal', (0, 0), ('P', (0, 0, 1), (x,)))
+    prems = [quantified() if rng.random() < 0.6 else ground() for _ in range(rng.choice((1, 2, 2, 3)))]
+    conc = ground() if rng.random() < 0.6 else quantified()
+    rng.shuffle(prems)
+    return prems, conc
+
 def gen_case(rng, logic, fragment=None, p_example=0.3):
     prof = profile_for(rng, logic, fragment)
     sem = refsem.get(logic)
+    if fragment in (None, 'modal') and sem.modal and rng.random() < (0.5 if sem.frame == 'D' else 0.3):
+        return modal_template(rng)
+    if fragment in (None, 'fo') and sem.quantified and rng.random() < 0.15:
+        return fo_template(rng, identity=sem.classical)
     if rng.random() < p_example:
         exs = example_args()
         for _ in range(8):
